@@ -236,6 +236,10 @@ def mirror_extend_low_side(array: jax.Array, axis: int, parity: int, on_plane: b
     if not on_plane:
         return parity * jnp.flip(array, axis=axis)
     mirrored = parity * jnp.flip(_slice_axis(array, axis, 1), axis=axis)
+    if array.shape[axis] == 1:
+        # a single kept sample has no interior mirror image: the missing outer sample repeats its only
+        # neighbour, the plane sample's own image, so the block still has n samples
+        return parity * array
     return jnp.concatenate([_slice_axis(mirrored, axis, 0, 1), mirrored], axis=axis)
 
 
